@@ -439,12 +439,6 @@ pub struct Applied<H: HB> {
     pub cmps: u64,
 }
 
-thread_local! {
-    static CMP_BASE: std::cell::Cell<u64> = const { std::cell::Cell::new(0) };
-}
-pub fn mark_cmp() {
-    CMP_BASE.with(|c| c.set(cmp_count()));
-}
 
 /// One transition on a clone of `q`, fully checked: return value legality, contents, tables, order.
 pub fn apply<H: HB>(q: &AnyQ<H>, unordered: bool, m: &Model, op: &Op, universe: &[u32]) -> Result<Applied<H>, String> {
@@ -455,11 +449,11 @@ pub fn apply<H: HB>(q: &AnyQ<H>, unordered: bool, m: &Model, op: &Op, universe: 
         mark_cmp();
         if let Op::Convert = op {
             let c2 = c.convert();
-            let cm = cmp_count() - CMP_BASE.with(|c| c.get());
+            let cm = cmps_since_mark();
             return Ok((c2, Ret::Unit, cm));
         }
         let r = with_q!(&mut c, x => step(x, op, &mut mm, &mut un));
-        let cm = cmp_count() - CMP_BASE.with(|c| c.get());
+        let cm = cmps_since_mark();
         r.map(|r| (c, r, cm))
     }));
     let (c, ret, cmps) = match res {
@@ -534,6 +528,9 @@ pub struct Case {
     /// E3: transitions after `ops`, each optionally with a panic injected at (callback class, index)
     #[serde(default)]
     pub trail: Vec<(Op, Option<(usize, u64)>)>,
+    /// free parameters of non-history cases (cost grid: n, pattern, kind)
+    #[serde(default)]
+    pub params: Vec<u64>,
 }
 
 impl Case {
@@ -572,6 +569,8 @@ pub struct Stats {
     pub samples: Mutex<Vec<String>>,
     pub max_depth: AtomicU64,
     pub max_len: AtomicU64,
+    /// order-independent fingerprint of the labelled transition graph (key, op, return, successor key)
+    pub graph_fp: AtomicU64,
 }
 
 pub trait Probe<H: HB>: Sync + Send {
@@ -661,6 +660,7 @@ impl<'a, H: HB> Explorer<'a, H> {
             universe: self.cfg.universe(),
             aux: None,
             trail: vec![],
+            params: vec![],
         }
     }
 
@@ -735,11 +735,11 @@ impl<'a, H: HB> Explorer<'a, H> {
         {
             for (double, r) in roots {
                 self.stats.roots.fetch_add(1, AO::Relaxed);
-                crate::crash::set_case(|| Case { prop: cfg.prop.into(), hasher: H::NAME.into(), double, root: r.clone(), ops: vec![], last: None, probe: None, detail: String::new(), universe: universe.clone(), aux: None, trail: vec![] });
+                crate::crash::set_case(|| Case { prop: cfg.prop.into(), hasher: H::NAME.into(), double, root: r.clone(), ops: vec![], last: None, probe: None, detail: String::new(), universe: universe.clone(), aux: None, trail: vec![], params: vec![] });
                 let root = Arc::new((double, r.clone()));
                 match make_root::<H>(double, &r, &universe) {
                     Err(e) => {
-                        self.report(Case { prop: cfg.prop.into(), hasher: H::NAME.into(), double, root: r.clone(), ops: vec![], last: None, probe: None, detail: e, universe: universe.clone(), aux: None, trail: vec![] });
+                        self.report(Case { prop: cfg.prop.into(), hasher: H::NAME.into(), double, root: r.clone(), ops: vec![], last: None, probe: None, detail: e, universe: universe.clone(), aux: None, trail: vec![], params: vec![] });
                     }
                     Ok(q) => {
                         let s = q.snap();
@@ -788,6 +788,7 @@ impl<'a, H: HB> Explorer<'a, H> {
                             let snap = node.q.snap();
                             let m = model_of(&snap);
                             let double = node.q.double();
+                            let parent_key = encode_key(double, node.unordered, &snap);
                             ops.clear();
                             let back = with_q!(&node.q, x => iter_mut_offers_back(x));
                             gen_ops(cfg, double, &m, back, &mut ops);
@@ -807,6 +808,7 @@ impl<'a, H: HB> Explorer<'a, H> {
                                             }
                                         }
                                         let key = encode_key(ap.q.double(), ap.unordered, &ap.snap);
+                                        local.graph_fp = local.graph_fp.wrapping_add(hash64(&(&parent_key, op, format!("{:?}", ap.ret), &key)));
                                         if insert(&key) {
                                             local.states += 1;
                                             local.max_len = local.max_len.max(ap.model.len() as u64);
@@ -877,6 +879,7 @@ pub struct LocalStats {
     pub merge_checked: u64,
     pub documented_panics: u64,
     pub max_len: u64,
+    pub graph_fp: u64,
     pub outcomes: HashSet<u64>,
     pub costs: BTreeMap<(&'static str, bool, usize), u64>,
     pub op_counts: BTreeMap<&'static str, u64>,
@@ -891,6 +894,7 @@ impl LocalStats {
         s.merge_checked.fetch_add(self.merge_checked, AO::Relaxed);
         s.documented_panics.fetch_add(self.documented_panics, AO::Relaxed);
         s.max_len.fetch_max(self.max_len, AO::Relaxed);
+        s.graph_fp.fetch_add(self.graph_fp, AO::Relaxed);
         s.outcomes.lock().unwrap().extend(self.outcomes.drain());
         let mut c = s.costs.lock().unwrap();
         for ((n, d, sz), v) in std::mem::take(&mut self.costs) {
